@@ -158,6 +158,10 @@ def features(prog):
                 feats.add('cmp_complex_operand')
             if e[2][0] == 'num':
                 feats.add('cmp_const_left')
+        if k == 'bin' and e[1] == '>>' and e[2][0] != 'var' and \
+                contains(e[2], lambda x: x[0] == 'var' and ty.get(x[1], ('u8',))[0] == 's8') and \
+                contains(e[2], lambda x: (x[0] == 'var' and (x[1] in ('X', 'Y') or ty.get(x[1], ('u8',))[0] == 'u8')) or x[0] == 'idx'):
+            feats.add('shr_mixed_sign8')
         if k == 'bin' and e[1] in ('<<', '>>'):
             feats.add('shift')
             if contains(e[2], lambda x: x[0] == 'bin' and x[1] in ('<<', '>>')):
